@@ -38,12 +38,15 @@
 (*                 UnsetRemoteHaltLock -> Recover -> AcquireWriteLock while*)
 (*                 it already holds the write lock => the stream goroutine *)
 (*                 never returns (`wedged`)                                *)
+(*   CatchUpKeeps  TRUE = a frame up to the position the lock was granted  *)
+(*                 at (catch-up of a lagging holder) does not clear the    *)
+(*                 remote lock (repaired); FALSE = every foreign frame does*)
 (*   GrantPins, IdemCheck, WaitPos, FwdFirst, ExpiryUnlocks  TRUE = as     *)
 (*                 written; FALSE = a seeded mutation (relevance configs). *)
 (***************************************************************************)
 EXTENDS Integers, Sequences, FiniteSets, TLC, Json
 
-CONSTANTS TxHolderCheck, UnsetFix, GrantPins, IdemCheck, WaitPos, FwdFirst, ExpiryUnlocks,
+CONSTANTS TxHolderCheck, UnsetFix, CatchUpKeeps, GrantPins, IdemCheck, WaitPos, FwdFirst, ExpiryUnlocks,
           MaxTx,       \* commits of any kind (bounds the checksum serial numbers)
           MaxFaults,   \* lost requests / lost responses / duplicated requests, together
           MaxHandles,  \* lock-file handles R opens (= distinct lock ids)
@@ -156,6 +159,8 @@ Frame(n) == LET p == primary  cp == EffBel(n)  F == Files(p, cp.t + 1) IN
             IF cp.t = 0 \/ F = {} \/ (\E i \in F : log[p][i].pre # cp.c)
             THEN [t |-> pos[p].t, pre |-> 0, c |-> pos[p].c, node |-> p, snap |-> TRUE]
             ELSE log[p][CHOOSE i \in F : TRUE]
+\* does frame f end R's remote halt lock?  As repaired only a file beyond the position the lock was granted at
+Clears(f) == ~CatchUpKeeps \/ f.t > rlock.pos.t \/ pos["R"].t >= rlock.pos.t
 CanDeliver(n) == /\ n \in Replicas /\ conn[n] /\ wl[n] = "free"
                  /\ EffBel(n).t < pos[primary].t
 \* the replica can never advance: the next file it needs is one it originated and therefore skips
@@ -168,11 +173,11 @@ Deliver(n) ==
      IF f.node = n
      THEN /\ bel' = [bel EXCEPT ![n] = fp]                               \* own frame: verified and discarded
           /\ UNCHANGED <<pos, log, rlock, wl, wedged, first>>
-     ELSE IF n = "R" /\ rlock.id # 0 /\ ~UnsetFix
+     ELSE IF n = "R" /\ rlock.id # 0 /\ ~UnsetFix /\ Clears(f)
      THEN /\ wedged' = TRUE /\ wl' = [wl EXCEPT !["R"] = "stream"]      \* self-deadlock inside UnsetRemoteHaltLock
           /\ UNCHANGED <<pos, log, rlock, bel, first>>
-     ELSE /\ rlock' = IF n = "R" THEN NoHL ELSE rlock                    \* stale remote lock cleared
-          /\ first' = IF n = "R" /\ rlock.id # 0 THEN FALSE ELSE first
+     ELSE /\ rlock' = IF n = "R" /\ Clears(f) THEN NoHL ELSE rlock      \* stale remote lock cleared
+          /\ first' = IF n = "R" /\ rlock.id # 0 /\ Clears(f) THEN FALSE ELSE first
           /\ IF f.snap
              THEN /\ pos' = [pos EXCEPT ![n] = fp] /\ log' = [log EXCEPT ![n] = <<f>>]
                   /\ bel' = [bel EXCEPT ![n] = fp]
@@ -265,9 +270,10 @@ AcquireRace ==
         /\ bel' = [bel EXCEPT !["R"] = PosOf(e)]
         /\ halt' = [halt EXCEPT ![p] = l] /\ wl' = [wl EXCEPT ![p] = IF GrantPins THEN "halt" ELSE "free"]
         /\ former' = former \ {id}
-        /\ hhas' = TRUE /\ first' = FALSE /\ ntx' = ntx + 1
+        /\ hhas' = TRUE /\ first' = CatchUpKeeps /\ ntx' = ntx + 1
         /\ H("AcquireRace", [x |-> 0], [res |-> "ok", id |-> id, t |-> e.t, c |-> e.c])
-  /\ UNCHANGED <<primary, rlock, rpc, conn, dups, wedged, nfault, nexp, npc, nrogue, nblock, nckpt, nidle, fvars>>
+        /\ rlock' = IF CatchUpKeeps THEN l ELSE NoHL
+  /\ UNCHANGED <<primary, rpc, conn, dups, wedged, nfault, nexp, npc, nrogue, nblock, nckpt, nidle, fvars>>
 
 \* WaitPosExact gives up (HaltAcquireTimeout or position exceeded): the deferred release goes to the
 \* primary, DB.remoteHaltLock stays set, the handle holds nothing
